@@ -61,11 +61,16 @@ META = {
         "small scope: <=3 source fields, <=4 destination fields, recipes of length <=2, 3 value vectors per program",
     ],
     "bound": {
-        "quick": "F1 default linking+policy: S in {a,b}, D in {a,b,d}; F2 recipes of length 1 over the full alphabet, F3 "
-                 "length 2 over the core alphabet on the same shapes; 5 type profiles; F4 all 16 ordered kind pairs on "
-                 "the 2-field core; F5 all entry points; F6 all constants/factories x 4 positions",
-        "thorough": "F1-F3 over S in {a,b,c}, D in {a,b,c,d} (length 2: full alphabet on the small shapes, core alphabet on "
-                    "the rest); all 28 type profiles for F1/F2, 8 for F3; F4-F6 as quick with all profiles",
+        "quick": "shapes S in subsets{a,b} x D in subsets{a,b,d}; F1 default linking + policies x 10 parameter lists x 5 type "
+                 "profiles; F2 every recipe of length 1 over the full alphabet x 3 parameter lists x 5 profiles; F3 recipes of "
+                 "length 2 over the core alphabet (both orders for elements competing for one destination, one order "
+                 "otherwise) x 2 parameter lists x 2 profiles; F4 the 15 other ordered kind pairs of {dataclass, NamedTuple, "
+                 "TypedDict, attrs} (+ dataclass->dataclass with a leading optional field) on the 2-field core x recipes of "
+                 "length <=1; F5 10 entry points x 3 parameter styles on 3 shapes, recipes <=1 (length 2 on the core "
+                 "shape); F6 25 constants + 11 factories x 5 positions x 4 destination kinds",
+        "thorough": "shapes S in subsets{a,b,c} x D in subsets{a,b,c,d}; F1 x all 28 type profiles; F2 x 4 parameter lists x 18 "
+                    "profiles; F3 both orders of every pair, full alphabet on shapes with <=2 destination fields, 4 profiles; "
+                    "F4 x 14 profiles x 5 cores; F5 x 5 profiles; F6 as quick",
     },
 }
 
